@@ -44,8 +44,17 @@ def run_property(pid, tier, repo_root, write=True, out=print, evidence_dir=None,
     seed = int(os.environ.get('VERIF_SEED', '0') or 0)
     report = Report(pid, tier, repo, seed)
     ctx = Ctx(repo, report, tier)
-    mod.run(ctx)
     from .report import load_known
+    try:
+        mod.run(ctx)
+    except AnalysisError as e:
+        # a later rule could not be decided; if earlier rules already found violations on this tree these are the
+        # result (exit 1), the undecidable remainder is reported alongside
+        known0, _f0 = load_known()
+        if not [o for o in report.violated() if (pid, o.key) not in known0]:
+            raise
+        report.note('ANALYSIS-ERROR after violations were found: %s' % e)
+        out('ANALYSIS-ERROR property=%s (after the violations below) %s' % (pid, e))
     known, _f = load_known()
     unknown = [o for o in report.violated() if (pid, o.key) not in known]
     if controls and unknown:
